@@ -20,6 +20,12 @@ def new_interp():
         if concrete_bool(g) is not True:
             I.oblige("safe.div_nonzero", g)
     _PI.DIV_HOOK[0] = div_hook
+    from .models import arrays as _A
+    import z3 as _z3
+    def nonneg(e):
+        sv = _z3.Solver(); sv.set("timeout", 300); sv.add(*[p for p in I.pc if not _z3.is_quantifier(p)]); sv.add(e < 0)
+        return sv.check() == _z3.unsat
+    _A.NONNEG_ORACLE[0] = nonneg
     return I
 
 
